@@ -279,6 +279,8 @@ class MiniInterp:
             self.import_time()
         if fi.qual in self.__dict__.get("_wrapped_methods", ()):
             raise Unknown(f"{fi.local} is wrapped by a project decorator")
+        if fi.module.name in self.__dict__.get("_poisoned", ()):
+            raise Unknown(f"module {fi.module.name} applies a decorator that is not modelled")
         memo_key = None
         if any((attr_chain(d.func if isinstance(d, ast.Call) else d) or "").split(".")[-1] in ("lru_cache", "cache") for d in fi.node.decorator_list):
             typed = any(isinstance(d, ast.Call) and any(k.arg == "typed" and isinstance(k.value, ast.Constant) and k.value.value for k in d.keywords)
@@ -355,6 +357,8 @@ class MiniInterp:
                 g, close = thread_generator(body)
                 result = LazyIter(g, close)
                 result.holder = holder
+                if any((attr_chain(d) or "").split(".")[-1] == "contextmanager" for d in fi.node.decorator_list):
+                    result = CtxGen(result)        # @contextmanager: the generator is driven by a with statement
             else:
                 try:
                     self.block(fi.node.body, env, fi)
@@ -498,6 +502,7 @@ class MiniInterp:
         if isinstance(st, ast.With):
             suppressed = []
             managers = []
+            gens = []
             for it in st.items:
                 ce = it.context_expr
                 if isinstance(ce, ast.Call) and (attr_chain(ce.func) or "").endswith("suppress"):
@@ -506,7 +511,15 @@ class MiniInterp:
                 # any other context manager: the value itself is bound (open files, locks, Live displays ...); __exit__
                 # is not modelled (no exception is swallowed by it)
                 v = self.ev(ce, env, fi)
-                if isinstance(v, Sym) and v.cls is not None and v.cls.find_method("__enter__") is not None:
+                if isinstance(v, CtxGen):
+                    END = object()
+                    g_ = v.lazy.lazy()
+                    first = next(g_, END)
+                    if first is END:
+                        raise PyRaise("RuntimeError", st)      # generator didn't yield
+                    gens.append((v, g_))
+                    v = first
+                elif isinstance(v, Sym) and v.cls is not None and v.cls.find_method("__enter__") is not None:
                     # a context manager of the project: __enter__ gives what `as` binds, __exit__ runs when the block is left
                     managers.append(v)
                     v = self.call(self.prj.func(v.cls.find_method("__enter__").qual, raw=True), [], {}, v)
@@ -516,6 +529,13 @@ class MiniInterp:
             def leave(exc):
                 """run the __exit__ methods, innermost first; True when one of them swallows the exception"""
                 swallowed = False
+                for cg, g_ in reversed(gens):
+                    if exc is None:
+                        for _ in g_:
+                            raise PyRaise("RuntimeError", st)  # generator didn't stop
+                    else:
+                        # the exception is raised at the yield: without a handler there, the rest of the generator is skipped
+                        cg.lazy.close()
                 for mgr in reversed(managers):
                     ex_m = mgr.cls.find_method("__exit__")
                     if ex_m is None:
@@ -528,16 +548,16 @@ class MiniInterp:
                 self.block(st.body, env, fi)
             except PyRaise as ex:
                 from .core import exc_is_caught
-                if managers and leave(ex):
+                if (managers or gens) and leave(ex):
                     return
                 if not (suppressed and exc_is_caught(ex.name, suppressed)):
                     raise
                 return
             except (_Ret, _Brk, _Cont):
-                if managers:
+                if managers or gens:
                     leave(None)
                 raise
-            if managers:
+            if managers or gens:
                 leave(None)
             return
         if isinstance(st, ast.Match):
@@ -987,7 +1007,8 @@ class MiniInterp:
         raise Unknown(f"iteration over {type(v).__name__}")
 
     LIBRARY_DECORATORS = {"staticmethod", "classmethod", "property", "abstractmethod", "cached_property", "lru_cache", "cache", "total_ordering",
-                          "dataclass", "override", "final", "overload", "setter", "deleter", "getter", "unique", "runtime_checkable"}
+                          "dataclass", "override", "final", "overload", "setter", "deleter", "getter", "unique", "runtime_checkable",
+                          "contextmanager"}
 
     @classmethod
     def project_decorators(cls, node) -> list:
@@ -1005,7 +1026,7 @@ class MiniInterp:
             nm = (attr_chain(d.func if isinstance(d, ast.Call) else d) or "?").split(".")[-1]
             if nm == "wraps":
                 continue                      # functools.wraps(f): copies names, returns the function
-            if nm in ("contextmanager", "singledispatch", "singledispatchmethod"):
+            if nm in ("singledispatch", "singledispatchmethod"):
                 raise Unknown(f"decorator {nm}")
             dec = self.ev(d, env, fi)
             value = self.apply2(dec, [value], {})
@@ -1036,7 +1057,9 @@ class MiniInterp:
             try:
                 self._import_one(kind, m, name, obj, cache)
             except (Unknown, PyRaise):
-                # a decorator that is not modelled (a command-line framework ...): what it makes of the definition is not known
+                # a decorator that is not modelled (a command-line framework ...): what it makes of the definition, and what it
+                # registers where, is not known - nothing of that module is evaluated
+                self.__dict__.setdefault("_poisoned", set()).add(m.name)
                 if kind != "class":
                     self.__dict__.setdefault("_wrapped_methods", set()).add(obj.qual)
 
@@ -2402,6 +2425,13 @@ class MiniInterp:
         with `before` (an expression of the class body), only what the body has bound above that line (the body runs top to bottom)"""
         line = getattr(before, "lineno", None)
         env = {nm: BoundFunc(m, None) for nm, m in c.methods.items() if line is None or m.node.lineno < line}
+        if line is not None:
+            # class attributes bound above that line exist by then (the body runs top to bottom): evaluate them now, in order
+            for nm, expr in sorted(c.class_attrs.items(), key=lambda kv: getattr(kv[1], "lineno", 0)):
+                if expr is not None and getattr(expr, "lineno", line) < line and (c.qual, nm) not in self.class_state:
+                    f0 = next(iter(c.methods.values()), None) or self.module_anchor(c.module, None)
+                    if f0 is not None:
+                        self.class_state[(c.qual, nm)] = self.ev(expr, self.class_namespace(c, expr), self.prj.func(f0.qual, raw=True))
         for (q, nm), v in self.class_state.items():
             if q == c.qual:
                 env[nm] = v
@@ -2757,6 +2787,13 @@ def _is_generator(fn_node) -> bool:
     return False
 
 
+class CtxGen:
+    """the context manager a @contextmanager generator function returns: entering runs it to its yield, leaving runs the rest"""
+
+    def __init__(self, lazy):
+        self.lazy = lazy
+
+
 class LazyIter:
     """an iterator whose next element is computed when asked for (os.walk: the consumer prunes the yielded list; generator
     functions of the project: the body runs only as far as the consumer pulls)"""
@@ -2774,6 +2811,14 @@ class LazyIter:
     def close(self):
         if self._close is not None:
             self._close()
+
+    def __del__(self):
+        # a generator that is dropped before it is exhausted: its helper thread is released (as Python closes the generator)
+        try:
+            if self._close is not None:
+                self._close()
+        except Exception:
+            pass
 
 
 class _GenClose(BaseException):
